@@ -486,7 +486,7 @@ func longhandsOf(prop, value string) (string, bool) {
 var badNeighbours = []string{"colour: red", "margin-middle: 1px", "-moz-foo: 1", "foo: bar baz", "azimuth: left", "-weasy-nope: 1",
 	"margin-top: red", "color: 12px", "padding: -1px", "display: sideways", "border: 1px 2px", "width: -bogus(1)", "margin:", "--ok: 1"}
 
-func metaCases(rng *vlib.Rng, n int, add func(in wIn, build func(wo wOut, status int, fatal string) []vlib.Case)) int {
+func metaCases(rng *vlib.Rng, n int, corpus [][4]string, add func(in wIn, build func(wo wOut, status int, fatal string) []vlib.Case)) int {
 	bases, rejected := validBases()
 	covered := map[string]bool{}
 	for _, b := range bases {
@@ -527,6 +527,13 @@ func metaCases(rng *vlib.Rng, n int, add func(in wIn, build func(wo wOut, status
 						"observable_canonical": truncate(oa, 1500), "observable_variant": truncate(ob, 1500)},
 					Tags: []string{"prop-" + b.prop}, Nontrivial: true, Key: kind + "|" + blockA + "|" + blockB}}
 			})
+	}
+	for _, c := range corpus {
+		var props []string
+		if c[3] != "" {
+			props = strings.Split(c[3], ",")
+		}
+		emit("meta-corpus", c[0], base{prop: "corpus"}, c[1], c[2], props)
 	}
 	for i := 0; count < n && i < 4*n; i++ {
 		r := rng.Fork()
@@ -573,7 +580,13 @@ func metaCases(rng *vlib.Rng, n int, add func(in wIn, build func(wo wOut, status
 				return strings.Join(parts, " ")
 			}
 			var v string
-			switch r.Intn(6) {
+			pick := r.Intn(6)
+			for _, t := range top {
+				if pa.IsLiteral(t, ",") && r.Bool() { // comma-separated lists: the fallback must keep its commas
+					pick = 1
+				}
+			}
+			switch pick {
 			case 0:
 				v = "--x: " + b.value + "; " + b.prop + ": var(--x)"
 			case 1:
